@@ -166,6 +166,11 @@ GoodPair(hs, k, v) == hs.last[k].p /\ ~hs.last[k].dead /\ v = hs.last[k].v
 \* An iterator that stays alive while the clock moves is recorded as an Advance event that carries
 \* what was yielded before the step (head, at the event's reading) and after it (tail, d later).
 IsSplitIter(e) == e.ev = "Advance" /\ HasF(e, "head")
+\* On the concurrent cache the owner of the iterator may also have called invalidate_all() right
+\* after the step (xa), at reading now + d >= now + 1: everything the history has inserted so far is
+\* then invalidated at a strictly later reading, so nothing may be yielded afterwards. (The call is
+\* recorded once more as an ordinary event that follows this one at the same reading.)
+SplitXa(e) == IsSplitIter(e) /\ HasF(e, "xa")
 SplitItems(e) == e.head \o e.tail
 KeysOf(items) == {items[i].k : i \in DOMAIN items}
 
@@ -176,6 +181,7 @@ Allowed_C01(hs, pre, e) ==
                           /\ \A i \in DOMAIN e.items : GoodPair(hs, e.items[i].k, e.items[i].v)
       [] IsSplitIter(e) -> /\ NoDup([i \in DOMAIN SplitItems(e) |-> SplitItems(e)[i].k])
                            /\ \A i \in DOMAIN SplitItems(e) : GoodPair(hs, SplitItems(e)[i].k, SplitItems(e)[i].v)
+                           /\ SplitXa(e) => e.tail = <<>>
       [] OTHER -> TRUE
 NT_C01(hs, pre, e) == IsLookupHit(e) \/ (e.ev = "Iter" /\ e.items # <<>>) \/ (IsSplitIter(e) /\ SplitItems(e) # <<>>)
                       \/ (e.ev \in {"Get", "Contains"} /\ hs.last[e.k].p)
@@ -280,6 +286,7 @@ Allowed_C07(hs, pre, e) ==
     /\ (e.ev = "Contains" /\ hs.last[e.k].p /\ hs.last[e.k].dead) => e.r = FALSE
     /\ e.ev = "Iter" => \A i \in DOMAIN e.items : ~(hs.last[e.items[i].k].p /\ hs.last[e.items[i].k].dead)
     /\ IsSplitIter(e) => \A k \in KeysOf(SplitItems(e)) : ~(hs.last[k].p /\ hs.last[k].dead)
+    /\ SplitXa(e) => e.tail = <<>>
     /\ (e.ev = "Contains" /\ hs.inv.on /\ hs.inv.now = e.now) =>
           /\ e.k \in hs.inv.targeted => e.r = FALSE
           /\ (hs.inv.settled /\ e.k \notin hs.inv.targeted \cup hs.inv.amb /\ e.k \in hs.inv.pre) => e.r = TRUE
@@ -522,7 +529,8 @@ Allowed_C16(hs, pre, e) ==
     \* the step is yielded, and nothing is yielded at a reading at which it cannot be live
     /\ IsSplitIter(e) =>
       /\ NoDup([i \in DOMAIN SplitItems(e) |-> SplitItems(e)[i].k])
-      /\ \A k \in KeysIn(pre.res) : RefLive(hs, k, e.now + e.d) => k \in KeysOf(SplitItems(e))
+      /\ ~SplitXa(e) => \A k \in KeysIn(pre.res) : RefLive(hs, k, e.now + e.d) => k \in KeysOf(SplitItems(e))
+      /\ SplitXa(e) => e.tail = <<>>
       /\ \A i \in DOMAIN e.head : RefMaybe(hs, e.head[i].k, e.now) /\ e.head[i].v = hs.last[e.head[i].k].v
       /\ \A i \in DOMAIN e.tail : RefMaybe(hs, e.tail[i].k, e.now + e.d) /\ e.tail[i].v = hs.last[e.tail[i].k].v
 NT_C16(hs, pre, e) == (e.ev = "Iter" /\ (e.items # <<>> \/ pre.res # <<>>)) \/ (IsSplitIter(e) /\ pre.res # <<>>)
@@ -557,6 +565,11 @@ HUpdate(P, hs, pre, e) ==
                                             !.accLo = IF IsSync(hs) THEN @ ELSE Max(@, e.now)]
                     ELSE IF k \in tg THEN [hs.last[k] EXCEPT !.dead = TRUE]
                     ELSE IF k \in am THEN [hs.last[k] EXCEPT !.amb = TRUE]
+                    \* concurrent cache: "the idle-timer extension of a get is guaranteed once pending
+                    \* maintenance has run": at a sync() that leaves nothing queued every successful
+                    \* get so far counts (a sequential client never fills the read queue, so none is dropped)
+                    ELSE IF IsSync(hs) /\ e.ev = "Sync" /\ Quiescent(e.snap)
+                    THEN [hs.last[k] EXCEPT !.accLo = Max(@, hs.last[k].acc)]
                     ELSE hs.last[k]]
         h1 == [hs EXCEPT !.last = last1]
         within1 == hs.within /\ (e.ev = "Insert" => (hs.cfg.cap = None \/ LiveWeight(h1, e.now) <= hs.cfg.cap))
